@@ -394,6 +394,107 @@ theorem cltvCheck_plain (a b c m : UInt8) (txLock seq : Nat) (hm : 1 ≤ m.toNat
       · simp [hB, hC]
       · simp [hB, hC]; omega
 
+/-- OP_CHECKSIG on `[pk, sig]` pushes `true` -/
+def checkSigTrue {D} (cx : Ctx D) (wit : Bool) (code pk sig : Bytes) : Bool :=
+  match opCheckSig cx wit code [pk, sig] with
+  | .ok [x] => asBool x
+  | _ => false
+
+/-- what "a valid signature by the key `pk`" means to the interpreter (standard flags): the stack
+    element is `der ++ [hashType]` with a defined hash type, `der` strictly DER encoded with low S,
+    the key encoded compressed (or, outside segwit, uncompressed) and parseable, and ECDSA
+    verification of `der` under `pk` succeeds for the digest of this spend. -/
+def ValidSig {D} (cx : Ctx D) (wit : Bool) (code pk sig : Bytes) : Prop :=
+  ∃ der ht, sig = der ++ [ht] ∧ (1 ≤ ht.toNat % 128 ∧ ht.toNat % 128 ≤ 3) ∧ cx.sigEnc der = none ∧
+    (isCompressedPk pk = true ∨ (wit = false ∧ isUncompressedPk pk = true)) ∧ cx.parsePk pk = true ∧
+    cx.verify pk der (checkSigDigest cx wit code ht) = true
+
+theorem checkSigTrue_iff {D} (cx : Ctx D) (wit : Bool) (code pk sig : Bytes) :
+    checkSigTrue cx wit code pk sig = true ↔ ValidSig cx wit code pk sig := by
+  unfold checkSigTrue ValidSig
+  rcases List.eq_nil_or_concat sig with rfl | ⟨der, ht, rfl⟩
+  · simp [opCheckSig, fromBool, asBool]
+  · simp only [List.concat_eq_append]
+    constructor
+    · intro h
+      refine ⟨der, ht, rfl, ?_⟩
+      simp only [opCheckSig, List.getLast?_append, List.getLast?_singleton, Option.some_or,
+        List.dropLast_concat] at h
+      by_cases h1 : ht.toNat % 128 < 1 ∨ ht.toNat % 128 > 3
+      · have h1' : ht.toNat % 128 = 0 ∨ 3 < ht.toNat % 128 := by omega
+        simp [h1'] at h
+      · simp only [h1, if_false] at h
+        cases he : cx.sigEnc der with
+        | some e => simp [he] at h
+        | none =>
+          simp only [he] at h
+          by_cases h2 : (wit && !isCompressedPk pk) = true
+          · simp [h2] at h
+          · simp only [h2, if_false] at h
+            by_cases h3 : (!(isCompressedPk pk || isUncompressedPk pk)) = true
+            · simp [h3] at h
+            · simp only [h3, if_false] at h
+              by_cases h4 : (!cx.parsePk pk) = true
+              · simp [h4, fromBool, asBool] at h
+              · simp only [h4, if_false] at h
+                cases hv : cx.verify pk der (checkSigDigest cx wit code ht) with
+                | false =>
+                  simp only [hv] at h
+                  by_cases h5 : der.isEmpty = true
+                  · simp [h5, fromBool, asBool] at h
+                  · simp [h5] at h
+                | true =>
+                  refine ⟨by omega, rfl, ?_, by simpa using h4, rfl⟩
+                  cases wit <;> cases hcp : isCompressedPk pk <;> simp_all
+    · rintro ⟨der', ht', e, hht, henc, hpk, hpp, hv⟩
+      obtain ⟨rfl, rfl⟩ : der = der' ∧ ht = ht' := by
+        have := List.append_inj' e (by simp)
+        exact ⟨this.1, by simpa using this.2⟩
+      have h1 : ¬ (ht.toNat % 128 < 1 ∨ ht.toNat % 128 > 3) := by omega
+      simp only [opCheckSig, List.getLast?_append, List.getLast?_singleton, Option.some_or,
+        List.dropLast_concat, h1, if_false, henc, hpp, hv]
+      rcases hpk with hc | ⟨hw, hu⟩
+      · simp [hc, fromBool, asBool]
+      · subst hw; simp [hu, fromBool, asBool]
+
+/-- **C28 `only_way_in`**: for ANY two stack elements `<sig> <pk>` offered with the deposit script
+    (P2SH or P2WSH), the interpreter accepts **iff** the key is the wallet key and the signature is
+    valid, or the key is the refund key (and not the wallet key), the signature is valid and the
+    CLTV condition holds.  All transaction locktimes, sequences, deposits, hash/signature functions. -/
+theorem only_way_in {D} (cx : Ctx D) (k : Kind) (d : Deposit) (wf : WellFormed d) (sig pk : Bytes)
+    (sz : Sizes cx d sig pk) :
+    spend cx k (template d) sig pk = .ok () ↔
+      (cx.hash160 pk = d.walletPKH ∧ ValidSig cx (isWit k) (template d) pk sig) ∨
+      (cx.hash160 pk ≠ d.walletPKH ∧ cx.hash160 pk = d.refundPKH ∧
+        cltvCheck d.refundLocktime cx.locktime cx.sequence = none ∧
+        ValidSig cx (isWit k) (template d) pk sig) := by
+  rw [spend_eq cx k d wf sig pk sz, ← checkSigTrue_iff]
+  unfold spendSpec checkSigTrue
+  -- the shape of CHECKSIG's result on a two-element stack
+  have shape : ∀ r, opCheckSig cx (isWit k) (template d) [pk, sig] = .ok r → ∃ x, r = [x] := by
+    intro r h
+    unfold opCheckSig at h
+    simp only at h
+    repeat' split at h
+    all_goals first | (cases h; done) | (cases h; exact ⟨_, rfl⟩)
+  by_cases hw : cx.hash160 pk = d.walletPKH
+  · cases hcs : opCheckSig cx (isWit k) (template d) [pk, sig] with
+    | error e => simp [hw]
+    | ok r =>
+      obtain ⟨x, rfl⟩ := shape r hcs
+      cases hx : asBool x <;> cases k <;> simp [hw, checkFinal, hx, isWit]
+  · by_cases hr : cx.hash160 pk = d.refundPKH
+    · have hw2 : ¬ d.refundPKH = d.walletPKH := fun e => hw (hr.trans e)
+      cases hcl : cltvCheck d.refundLocktime cx.locktime cx.sequence with
+      | some e => simp [hw, hr, hw2]
+      | none =>
+        cases hcs : opCheckSig cx (isWit k) (template d) [pk, sig] with
+        | error e => simp [hw, hr, hw2]
+        | ok r =>
+          obtain ⟨x, rfl⟩ := shape r hcs
+          cases hx : asBool x <;> cases k <;> simp [hw, hr, hw2, checkFinal, hx, isWit]
+    · simp [hw, hr]
+
 /-! ## Non-vacuity: the hypotheses of the theorems above are satisfiable, and the model rejects -/
 
 set_option maxRecDepth 20000
